@@ -10,6 +10,7 @@ import (
 	"go/constant"
 	"go/token"
 	"go/types"
+	"sort"
 	"strings"
 
 	"golang.org/x/tools/go/ssa"
@@ -81,6 +82,7 @@ func checkC06(c *Ctx, r *Report) {
 	mirrorRule(c, r, "C06-mirror")
 	codeWidthRule(c, r, pr, "C06-codewidth")
 	lengthAgreeRule(c, r, "C06-length")
+	noSharedStateRule(c, r, "C06-shared")
 	// ---- C06-consumed
 	r.Rule("C06-consumed", 1, "Write consumes all input")
 	if fn := c.Func(pkg, "(*Writer).Write"); fn != nil {
@@ -284,7 +286,16 @@ func percallRule(c *Ctx, r *Report, rule string) {
 						if web[other] {
 							continue
 						}
+						if k, isC := constInt(other); isC && k == 0 {
+							continue
+						}
 						if _, isC := constInt(other); isC {
+							// a per-call count compared with a non-zero constant: harmless only as a
+							// branch condition that does not decide codec state - and it never is: the
+							// count of THIS call says nothing about the stream position
+							if leak == "" {
+								leak = c.pos(x.Pos()) + ": the per-call count is compared with a constant (" + x.String() + ")"
+							}
 							continue
 						}
 					}
@@ -667,4 +678,32 @@ func lengthAgreeRule(c *Ctx, r *Report, rule string) {
 	} else {
 		o.Bad("the announced match length is not limited to the bytes left in the lookahead")
 	}
+}
+
+// noSharedStateRule: independent Writers/Readers share nothing mutable. Every package-level
+// variable of lzhuf is a table that no instruction writes.
+func noSharedStateRule(c *Ctx, r *Report, rule string) {
+	r.Rule(rule, 1, "package lzhuf has no package-level variable that is written at run time")
+	sp := c.SSA["lzhuf"]
+	if sp == nil {
+		r.Fail(rule, "package lzhuf not found")
+		return
+	}
+	n := 0
+	var names []string
+	for name := range sp.Members {
+		names = append(names, name)
+	}
+	sort.Strings(names)
+	for _, name := range names {
+		g, ok := sp.Members[name].(*ssa.Global)
+		if !ok || strings.HasPrefix(name, "init$") {
+			continue
+		}
+		n++
+		if globalWritten(c, g) {
+			r.Add(rule, "lzhuf", "var "+name, c.pos(g.Pos())).Bad("package-level variable %s is written (or its address handed out) at run time: two codecs running at the same time share it - e.g. a scratch buffer for the CRC input gives a stream whose checksum belongs to neither message", name)
+		}
+	}
+	r.Add(rule, "lzhuf", "package-level variables", "lzhuf").OK("%d variable(s) examined", n)
 }
